@@ -236,7 +236,9 @@ class C11(Prop):
             'after capture, then fetches / reads / live metadata / __setitem__ / mutations of handed-out values / replays whose '
             'replayed code mutates injected values; + stored values whose copy-on-read fails (an object whose serialised state omits a '
             'derived attribute), read / re-read / replayed on the in-memory and the file cassette (not modelled: whatever a read hands '
-            'out must not expose the stored value); a case is non-trivial when at least one in-place mutation applied to a '
+            'out must not expose the stored value); + inputs recorded with copy-on-interception through a data handler whose prepared form holds the '
+            'result next to a live argument / instance state that the operation goes on changing (not modelled: the recording holds what they were at the '
+            'interception); a case is non-trivial when at least one in-place mutation applied to a '
             'handed-out or captured object and a later read observed the key; distinct = distinct canonical case')
     TRUSTED = ['correspondence harness harness/props/c11.py + Lean driver (Drive/Heap.lean): script compilation, path '
                'navigation and the edit-applicability rule are implemented twice (Python on real objects, Lean on cells)',
@@ -340,7 +342,78 @@ class C11(Prop):
             for reads in (['get', 'get'], ['item', 'get'], ['get', 'refetch', 'get'], ['play', 'play'], ['get', 'play']):
                 cases.append({'kind': 'fragile', 'cassette': cassette, 'reads': reads,
                               'items': [rng.choice(['a', 'b', 'c']) + str(i) for i in range(rng.randint(1, 3))]})
+        for cassette in ('mem', 'file'):
+            for embed in ('argument', 'state'):
+                calls = rng.sample(range(10), rng.randint(1, 3))
+                cases.append({'kind': 'ctxhandler', 'cassette': cassette, 'embed': embed, 'copy': True, 'calls': calls,
+                              'changes': rng.randint(1, 2)})
         return cases
+
+    def run_ctxhandler(self, case):
+        """copy-on-interception with a data handler whose prepared form holds, next to the result, a live object of the service (an
+        argument of the call / state of the instance) that the operation goes on changing"""
+        from playback.tape_recorder import TapeRecorder, RecordingParameters
+        from playback.interception.input_interception import InputInterceptionDataHandler
+        tmp = tempfile.mkdtemp(prefix='c11h')
+        try:
+            cassette = self.make_cassette(case['cassette'], tmp)
+            tr = TapeRecorder(cassette)
+            tr.enable_recording()
+            ids = []
+            real_create = cassette.create_new_recording
+
+            def create(category):
+                r = real_create(category)
+                ids.append(r.id)
+                return r
+            cassette.create_new_recording = create
+
+            class WithContext(InputInterceptionDataHandler):
+                def prepare_input_for_recording(self, interception_key, result, args, kwargs):
+                    live = args[1] if case['embed'] == 'argument' else args[0].state
+                    return {'wrapped': result, 'context': live}
+
+                def restore_input_from_recording(self, recorded_data, args, kwargs):
+                    return recorded_data['wrapped']
+            at_call = []
+
+            class Op(object):
+                def __init__(self):
+                    self.state = ['state', 0]
+
+                @tr.intercept_input('load', data_handler=WithContext())
+                def load(self, request):
+                    return ['result', list(request)]
+
+                @tr.operation()
+                def run(self):
+                    for n in case['calls']:
+                        request = ['request', n]
+                        got = self.load(request)
+                        live = request if case['embed'] == 'argument' else self.state
+                        at_call.append({'wrapped': [got[0], list(got[1])], 'context': list(live)})
+                        for _ in range(case['changes']):
+                            request.append('changed later')
+                            self.state.append('changed later')
+                            got.append('changed later')
+                    return 'done'
+            tr.recording_params(RecordingParameters(copy_data_on_intercepion=True))(Op)
+            Op().run()
+            if not ids:
+                return {'error': 'no recording was created'}
+            try:
+                rec = cassette.get_recording(ids[0])
+            except Exception as ex:
+                return {'error': 'the recording was not saved (%s)' % type(ex).__name__}
+            keys = sorted(k for k in rec.get_all_keys() if k.startswith('input: load'))
+            by_n = {}
+            for k in keys:
+                v = rec.get_data(k)['value']
+                by_n[v['wrapped'][1][1]] = {'wrapped': [v['wrapped'][0], list(v['wrapped'][1])] + list(v['wrapped'][2:]),
+                                            'context': list(v['context'])}
+            return {'stored': [by_n.get(n) for n in case['calls']], 'at_call': at_call}
+        finally:
+            shutil.rmtree(tmp, ignore_errors=True)
 
     def run_fragile(self, case):
         from playback.tape_recorder import TapeRecorder
@@ -623,6 +696,8 @@ class C11(Prop):
     def run_impl(self, case):
         if case.get('kind') == 'fragile':
             return self.run_fragile(case)
+        if case.get('kind') == 'ctxhandler':
+            return self.run_ctxhandler(case)
         from playback.tape_recorder import TapeRecorder, RecordingParameters
         tmp = tempfile.mkdtemp(prefix='c11')
         try:
@@ -859,7 +934,7 @@ class C11(Prop):
                     steps.append({'op': 'get', 'rec': ns + 'orig', 'key': st['key'], 'sub': [], 'var': ns + st['var']})
 
     def model_requests(self, case):
-        if case.get('kind') == 'fragile':
+        if case.get('kind') in ('fragile', 'ctxhandler'):
             return []
         steps = []
         self.compile_body(case, 'rec', '', steps)
@@ -910,12 +985,12 @@ class C11(Prop):
         return [{'m': 'c11.run', 'copy': case['copy'], 'direct': False, 'steps': steps}]
 
     def model_transcript(self, case, answers):
-        if case.get('kind') == 'fragile':
+        if case.get('kind') in ('fragile', 'ctxhandler'):
             return None
         return [canon_tree(x) for x in answers[0]]
 
     def impl_view(self, case, impl):
-        if case.get('kind') == 'fragile':
+        if case.get('kind') in ('fragile', 'ctxhandler'):
             return None
         if 'error' in impl:
             return impl['error']
@@ -925,6 +1000,16 @@ class C11(Prop):
     # the property, stated directly
     # ------------------------------------------------------------------------------------------------------
     def oracle(self, case, impl):
+        if case.get('kind') == 'ctxhandler':
+            if 'error' in impl:
+                return ['data handler embedding a live object: ' + impl['error']]
+            fails = []
+            for i, (stored, at_call) in enumerate(zip(impl['stored'], impl['at_call'])):
+                if stored != at_call:
+                    fails.append('copy-on-interception: input %d went through a data handler whose prepared form holds the result and a live '
+                                 '%s; both were changed after the interception; the recording holds %r, at the interception they were %r'
+                                 % (i, case['embed'], stored, at_call))
+            return fails
         if case.get('kind') == 'fragile':
             fails = []
             for i, r in enumerate(impl['reads']):
@@ -1000,11 +1085,13 @@ class C11(Prop):
 
     # ------------------------------------------------------------------------------------------------------
     def nontrivial(self, case, impl):
-        if case.get('kind') == 'fragile':
+        if case.get('kind') in ('fragile', 'ctxhandler'):
             return True
         return 'obs' in impl and any(o['tag'][0] == 'mut' and o['val'] is True for o in impl['obs'])
 
     def features(self, case, impl):
+        if case.get('kind') == 'ctxhandler':
+            return ['cassette:' + case['cassette'], 'handler-embeds-live-%s' % case['embed'], 'copy:%s' % case['copy']]
         if case.get('kind') == 'fragile':
             return ['cassette:' + case['cassette'], 'stored-value-whose-copy-fails'] + ['fragile-read:%s:%s' % (r[0], r[1]) for r in impl['reads']]
         out = ['cassette:' + case['cassette'], 'copy:%s' % case['copy']]
@@ -1030,12 +1117,12 @@ class C11(Prop):
         return out
 
     def sample_repr(self, case):
-        if case.get('kind') == 'fragile':
+        if case.get('kind') in ('fragile', 'ctxhandler'):
             return case
         return {'cassette': case['cassette'], 'copy': case['copy'], 'body': case['body'][:6], 'script': case['script'][:8]}
 
     def shrink(self, case):
-        if case.get('kind') == 'fragile':
+        if case.get('kind') in ('fragile', 'ctxhandler'):
             return
         sc = case['script']
         for i in range(len(sc)):
